@@ -161,12 +161,21 @@ Record secpart := { s_usage : Z; s_s2k : bytes; s_enc : bytes; s_priv : list Z; 
    checksum octets stay inside encbytes) and 05bf06b (String2Key.__bytearray__ writes the serial-length octet of a GNU
    smartcard stub even when the serial is empty) changed which FIELD VALUES a parsed packet holds and which octets
    String2Key emits; both arrive here as the inputs s_enc / s_chk / s_s2k, the composition of the tail is unchanged. *)
-(* String2Key.__bool__ *)
-Definition s2k_on (sp : secpart) : bool := (s_usage sp =? 254) || (s_usage sp =? 255).
+(* String2Key.__bool__ after repair 8563c06: `self.usage != 0`.  A usage octet other than 0 / 254 / 255 is a cipher id
+   (RFC 4880 5.5.3, "legacy"): the material is protected, String2Key.__bytearray__ writes the usage octet and the IV
+   only (s_s2k = the IV then), the ciphertext follows, no clear checksum *)
+Definition s2k_on (sp : secpart) : bool := negb (s_usage sp =? 0).
 Definition s2k_bytes (sp : secpart) : bytes := s_usage sp :: (if s2k_on sp then s_s2k sp else []).
 Definition sec_tail (sp : secpart) : bytes :=
   s2k_bytes sp
   ++ (if s2k_on sp then s_enc sp else flat_map to_mpibytes (s_priv sp))
+  ++ (if s_usage sp =? 0 then s_chk sp else []).
+(* the code before that repair (kept for the refutation theorem): only 254 / 255 counted as protected, so a secret part
+   under a cipher-id usage octet was written as usage octet + the (cleared) integers, IV and ciphertext dropped *)
+Definition s2k_on_old (sp : secpart) : bool := (s_usage sp =? 254) || (s_usage sp =? 255).
+Definition sec_tail_old (sp : secpart) : bytes :=
+  (s_usage sp :: (if s2k_on_old sp then s_s2k sp else []))
+  ++ (if s2k_on_old sp then s_enc sp else flat_map to_mpibytes (s_priv sp))
   ++ (if s_usage sp =? 0 then s_chk sp else []).
 
 (* ---------- the key packet ---------- *)
@@ -177,15 +186,27 @@ Record keypkt := { k_sub : bool; k_created : Z; k_alg : Z; k_mat : pubmat; k_sec
 
 Definition is_private (k : keypkt) : bool := match k_sec k with Some _ => true | None => false end.
 
-(* self.keymaterial.__bytearray__() *)
+Definition is_opaque (m : pubmat) : bool := match m with POpaque _ => true | _ => false end.
+(* self.keymaterial.__bytearray__().  PrivKey.__bytearray__ appends the secret part to the public fields; since repair
+   c516614 OpaquePrivKey.__bytearray__ is OpaquePubKey.__bytearray__: the opaque octets ARE the whole material as
+   received (public part, usage octet, secret part undivided), nothing of the unused String2Key / checksum follows *)
 Definition keymaterial_bytes (k : keypkt) : bytes :=
+  pubmat_bytes (k_mat k)
+  ++ (if is_opaque (k_mat k) then [] else match k_sec k with Some sp => sec_tail sp | None => [] end).
+(* the composition before that repair (kept for the refutation theorem): the secret tail - at least the usage octet 0
+   of the fresh String2Key - after the opaque octets too *)
+Definition keymaterial_bytes_old (k : keypkt) : bytes :=
   pubmat_bytes (k_mat k) ++ match k_sec k with Some sp => sec_tail sp | None => [] end.
 (* self.keymaterial.publen() *)
 Definition publen (k : keypkt) : Z := pubmat_len (k_mat k).
 
-(* PubKeyV4.__bytearray__ without the packet header: version, time, algorithm, material *)
+(* PubKeyV4.__bytearray__ without the packet header: version, time, algorithm, material.  Since repair 298df7b the
+   method builds this body first and sets header.length = 1 + len(_body) before the header is written: the header always
+   counts the octets written (what Model/PubExport.v pkt_emit does: header for the length of the body) *)
 Definition key_body (k : keypkt) : bytes :=
   [4] ++ int_to_bytes (k_created k) 4 ++ int_to_bytes (k_alg k) 1 ++ keymaterial_bytes k.
+Definition key_body_old (k : keypkt) : bytes :=
+  [4] ++ int_to_bytes (k_created k) 4 ++ int_to_bytes (k_alg k) 1 ++ keymaterial_bytes_old k.
 
 (* __typeid__ of PubKeyV4 / PubSubKeyV4 / PrivKeyV4 / PrivSubKeyV4 *)
 Definition key_tag (k : keypkt) : Z :=
@@ -199,7 +220,6 @@ Definition key_tag (k : keypkt) : Z :=
    For a supported algorithm the copied fields ARE the public material (every constructor argument of pubmat).
    A packet that is public already has no pubkey() method; PGPKey.pubkey returns such a key itself
    (`if self.is_public: return self`): pub_half of a public packet is that packet. *)
-Definition is_opaque (m : pubmat) : bool := match m with POpaque _ => true | _ => false end.
 Definition pub_half (k : keypkt) : keypkt :=
   {| k_sub := k_sub k; k_created := k_created k; k_alg := k_alg k; k_mat := k_mat k; k_sec := None |}.
 Definition opaque_private (k : keypkt) : bool := is_private k && is_opaque (k_mat k).
